@@ -12,6 +12,7 @@ import (
 	_ "crypto/sha512"
 	"fmt"
 	"math/big"
+	"strings"
 
 	"gitlab.com/yawning/secp256k1-voi/secec"
 	"gitlab.com/yawning/secp256k1-voi/secec/bitcoin"
@@ -267,6 +268,33 @@ func main() {
 			}
 		}
 	}
+	// (b') chosen u2 = r/s on the GLV rounding / limb-carry boundaries of the verifier's variable-base multiply:
+	// R = u1 G + u2 Q, r = x(R) mod n, s = r/u2, e = u1 s  (valid by construction, no private key needed)
+	for gi, gv := range mc.GLVScalars(false) {
+		if !(strings.HasPrefix(gv.Label, "rounding") || strings.HasPrefix(gv.Label, "quotient")) {
+			continue
+		}
+		if !th && !(strings.Contains(gv.Label, "m=ffffffffffffffff,") || strings.Contains(gv.Label, "m=0,") || gi%7 == 0) {
+			continue
+		}
+		u2 := gv.V
+		if u2.Sign() == 0 {
+			continue
+		}
+		q := ref.G().Mul(big.NewInt(0x51ed))
+		u1 := big.NewInt(int64(3 + gi))
+		rp := ref.BaseMul(u1).Add(q.Mul(u2))
+		if rp.Inf {
+			continue
+		}
+		r := ref.ModN(rp.X)
+		if r.Sign() == 0 {
+			continue
+		}
+		sv := ref.ZnMul(r, ref.ZnInv(u2))
+		e := ref.ZnMul(u1, sv)
+		add(vcase{q, nil, ref.B32(e), r, sv, "chosen u2 on a GLV rounding boundary", false})
+	}
 	// (c) R = infinity: e = -r d  (u1 G + u2 Q = (e + r d)/s G = inf)
 	for _, d := range keys {
 		q := ref.BaseMul(d)
@@ -321,7 +349,7 @@ func main() {
 			R.Sample(c.cls, map[string]any{"q": lib.PtHex(c.q), "digest": mc.Hex(c.digest), "r": c.r.Text(16), "s": c.s.Text(16), "reference_valid": valid})
 		}
 	})
-	R.Expect("signed => valid", "chosen R => valid", "chosen R with x(R) >= n => valid", "R = infinity => invalid", "signed / n-s (valid, other half) => valid",
+	R.Expect("chosen u2 on a GLV rounding boundary => valid", "signed => valid", "chosen R => valid", "chosen R with x(R) >= n => valid", "R = infinity => invalid", "signed / n-s (valid, other half) => valid",
 		"signed / r=0 => invalid", "signed / s=n => invalid", "digest length 31 => invalid", "digest length 33 => valid", "signed / digest extended (same e) => valid")
 	R.Finish()
 }
